@@ -61,6 +61,12 @@ CHECKS = {
         text="The agent's answer is replaced at PDU level by an error response (inside authentic/encrypted v3 messages); the whole matrix of statuses (1..18, undefined, negative), indexes (0..len+3, negative, huge), list lengths (0..5) and operations (incl. first/later request of walks) is run; thorough runs it completely on all seven levels.",
         ref="DESIGN.md 4/C08",
     ),
+    "C09": dict(
+        cat="fault_enumeration",
+        technique="runtime monitoring: man-in-the-middle fault enumeration (every single-bit flip, flag clearing, structural forgeries) with an accept/refuse oracle against the authentic result",
+        text="Per authentic response (operations x contents x MD5/SHA-1 x authNoPriv/authPriv) every single-bit flip, every flip combined with cleared auth (and auth+priv) flags, and ~40 structural forgeries built without the victim's keys are delivered to the real client under the step budget; the outcome must be an exception or the authentic result. The quick corpus (8 responses, ~26 000 trials) and the thorough corpus (60 responses) are enumerated completely.",
+        ref="DESIGN.md 4/C09",
+    ),
     "C15": dict(
         cat="exploration",
         technique="runtime monitoring: recursive exact-type walk over PyWrapper results + equality with pythonised raw results",
